@@ -1,5 +1,5 @@
-CONSTANTS Scripts <- ScriptsQ  Seqs <- SeqsQ  Stacks <- StacksQ  OutChoices <- OutsQ  MaxIn = 2  MaxOut = 1
-TrailKinds = {"none", "zero", "copy", "prefix"}  Deviation = "none"
+CONSTANTS Sha256 <- SampleHash  Scripts <- ScriptsR  Seqs <- SeqsR  Stacks <- StacksR  OutChoices <- OutsR  MaxIn = 1  MaxOut = 1
+TrailKinds = {"none", "zero", "copy"}  Deviation = "none"
 INIT Init
 NEXT Next
 INVARIANT CasesWellFormed
